@@ -135,6 +135,9 @@ type Config struct {
 	Roots map[*ssa.Function]map[int]RootSpec
 	// External: optional model for calls that leave the engine packages.
 	External func(a *Analysis, site ssa.CallInstruction, callee *ssa.Function) bool
+	// Fresh: engine functions analysed per call site as "returns storage of its own, touches nothing it is
+	// given" (copy constructors such as a JSON round trip); the rule that uses this must check the claim.
+	Fresh map[*ssa.Function]bool
 	// CutCallbacks: dynamic calls through function values loaded from closed
 	// objects are treated as callbacks (assumption A2).
 	Log func(string)
@@ -171,6 +174,7 @@ type Analysis struct {
 	extObjs     map[ssa.Instruction]*Obj
 	worlds      map[string]*Obj
 	worldCalled map[*Obj]bool
+	cbSite      map[ssa.CallInstruction]bool // call sites treated as callbacks (A2)
 	// WorldCalled: engine functions that escaped to an external world and are
 	// therefore analysed as called from it.
 	WorldCalled []*ssa.Function
@@ -847,6 +851,21 @@ func (a *Analysis) process(n NodeID) {
 			switch c.kind {
 			case cLoad:
 				a.addCopy(a.cell(a.loc(L.Obj, L.Path+c.suffix)), c.other)
+				// A2 (weakened): what a callback returns is its own, except that it may hand back — at any
+				// depth — a value it was given (an action that returns the bindings it received; the
+				// in-repository noop interpreter does).  A load from a callback's result of static type T
+				// can therefore also yield any argument of that call whose static type is T.
+				if L.Obj.Kind == KExternal && L.Obj.Instr != nil {
+					if site, ok := L.Obj.Instr.(ssa.CallInstruction); ok && a.cbSite[site] {
+						if dt := a.nodes[c.other].typ; dt != nil {
+							for _, arg := range site.Common().Args {
+								if PointerLike(arg.Type()) && types.Identical(arg.Type(), dt) {
+									a.addCopy(a.nodeOf(arg), c.other)
+								}
+							}
+						}
+					}
+				}
 			case cStore:
 				a.addCopy(c.other, a.cell(a.loc(L.Obj, L.Path+c.suffix)))
 			case cOffset:
@@ -1119,6 +1138,10 @@ func (a *Analysis) genCall(f *ssa.Function, site ssa.CallInstruction) {
 		return
 	}
 	if callee := c.StaticCallee(); callee != nil {
+		if a.cfg.Fresh[callee] {
+			a.freshResult(site, "fresh")
+			return
+		}
 		if a.inEngine(callee) {
 			a.bindCall(site, callee, false)
 		} else {
@@ -1158,6 +1181,10 @@ func (a *Analysis) callback(site ssa.CallInstruction) {
 		return
 	}
 	a.Callbacks = append(a.Callbacks, site)
+	if a.cbSite == nil {
+		a.cbSite = map[ssa.CallInstruction]bool{}
+	}
+	a.cbSite[site] = true
 	a.freshResult(site, "callback")
 }
 
